@@ -5,7 +5,7 @@
    The model follows the statement order of the C++ (what is read when, what is written when). *)
 From Coq Require Import ZArith Bool List Lia.
 From MomoCommon Require Import GenPrelude.
-From C18 Require Gen_Vertices Gen_Ceil.
+From C18 Require Gen_Vertices Gen_Ceil Gen_List.
 Import ListNotations.
 Local Open Scope Z_scope.
 
@@ -85,9 +85,10 @@ Section WithL.
   Variable L : Z.          (* ColumnTraits::logVertexCount, 4 <= L < 16 *)
   Variable keep : bool.    (* Settings::keepRowNumber *)
 
-  Definition vertexCount : Z := Z.shiftl 1 L.
-  Definition maxColumnCount : Z := Z.shiftl 1 (L - 1).
-  Definition maxCodeParam : Z := 255.
+  (* the constants are the ones of the source (cxx2coq "emit_consts"), not copies *)
+  Definition vertexCount : Z := Gen_List.vertexCount L.               (* DataColumnList::vertexCount *)
+  Definition maxColumnCount : Z := Gen_Vertices.maxColumnCount L.     (* DataColumnTraits::maxColumnCount *)
+  Definition maxCodeParam : Z := Gen_Vertices.maxCodeParam.           (* DataColumnTraits::maxCodeParam *)
   Definition vertices : list Z := zrange (Z.to_nat vertexCount) 0.      (* 0, 1, .., vertexCount-1 *)
   Definition dfs_fuel : nat := S (Z.to_nat vertexCount).
   Definition rowNumberSize : Z := if keep then 8 else 0.
@@ -149,6 +150,10 @@ Section WithL.
     let '(v1, v2) := GetVertices code cp in
     let a1 := a v1 in let a2 := a v2 in
     if negb (Z.eqb a1 0) && negb (Z.eqb a2 0) then Some (wrapU 64 (a1 + a2)) else None.
+
+  (* the cxx2coq translation of the real pvGetOffset (Gen_List.v); lookup_refines (Inv.v): it IS `lookup` *)
+  Definition lookup_gen (cp : Z) (a : addends_t) (code : Z) : option Z :=
+    match Gen_List.pvGetOffset GetVertices cp a 0 0 code with Ok o => Some o | _ => None end.
 
   (* pvAddColumns: the offset stored in the ColumnRecord is the one LOOKED UP through the new addends *)
   Fixpoint add_columns (cp : Z) (a : addends_t) (rs : list crec) : option (list crec) :=
